@@ -32,12 +32,15 @@ Decided here are structural clauses that are genuine necessary conditions of it 
            ctz(w1 ^ w2) / 8 (rounding down; `(ctz + c) / 8` is reported).
   R-C18-7  (also) a string delimiter is read the same way by every search of a tokeniser: as a set of characters
            (find_first_of / find_first_not_of) or as one separator string (find); mixing both is reported.
+  R-C18-7  (also) a token start that is assigned the result of a search (and so can be npos) is used only behind a
+           test against npos, or behind a successful search that started from it.
   R-C18-7  tokenizer loop shape: a token runs from the token start to the found delimiter, the search for the
            delimiter starts at the token start, the next token starts right behind the delimiter; split(char)
            reads with getline(stream(input), token, delimiter parameter).
   R-C18-8  cut points: FileName path/base cut behind the last separator, ext/dropExt/name/setExt cut at the dot;
            PseudoURL constructor skips "://" by its own length and cuts name=value around the first '=' (both cuts must
-           be found, in the constructor or a helper; a value taken as field [1] of split(component, '=') is reported).
+           be found, in the constructor or a helper; a value taken as field [1] of split(component, '=') is reported);
+           the uncut component is stored as a name only where the delimiter was not found.
 
   R-C18-9  PseudoURL::params keeps URL order: only appended to (one append per token, tokens 1..n ascending, token 0
            is the file name), never handed to an operation that reorders or overwrites it (std::sort, unique, ...);
@@ -934,6 +937,9 @@ def is_found_test(tf, leaf):
         a = (-(r.p) + P_NPOS).as_atom()
     if isinstance(a, tuple) and a and a[0] == 'var' and tf.found_var(a[1]):
         return a[1], r.op
+    if isinstance(a, tuple) and a and a[0] == 'var' and a[1] in tf.x.vars and \
+            any(k_ in ('init', 'assign') and nd_ is not None and tf.find_call(nd_) is not None for k_, nd_, p_ in tf.x.vars[a[1]]['defs']):
+        return a[1], r.op      # some value of the variable is the result of a search: npos means "nothing found"
     return None
 
 
@@ -1100,6 +1106,38 @@ def check_extent(ctx, tu, tf, rule, inst, key, call, pos, extra, src, p, n, at, 
         if okv is None:
             und.append('the token runs to the end of the input but no dominating test says that no further delimiter exists')
         found_end = okv
+    # (1b) a token start that can be npos (it is assigned the result of a search) is used only behind a test
+    if pa is not None and n is None:
+        pvv = x.vars[pa[1]]
+        finds = [tf.find_call(nd_) for k_, nd_, p_ in pvv['defs'] if k_ in ('init', 'assign') and nd_ is not None]
+        finds = [fc for fc in finds if fc is not None]
+        if finds:
+            tested = False
+            for leaf, cn, cpos in guard_leaves(tu, x, pos, extra, at):
+                if leaf is None or leaf[0] != 'rel':
+                    continue
+                if leaf[1] == Rel.make(Poly.atom(pa), '!=', P_NPOS):
+                    # adjustments made under an option parameter (keepDelim) belong to the clause that is not decided
+                    keep = pvv['defs']
+                    pvv['defs'] = [df for df in keep if not (df[0] in ('inc', 'compound') and df[2] and any(
+                        x.var_of(gc)[0] in x.params and plain_ct(x.vars[x.var_of(gc)[0]]['ct']) == 'bool' and gt
+                        for gc, gt, gb in x.guards(df[2])))]
+                    try:
+                        if x.clean(cpos, pos, [pa[1]]):
+                            tested = True
+                    finally:
+                        pvv['defs'] = keep
+                ft = is_found_test(tf, leaf)
+                if ft and ft[1] == '!=':
+                    # a delimiter found by a search that starts at the token start: the start is a valid position
+                    fv = tf.found_var(ft[0]) or []
+                    if fv and all(len(t[2]) >= 2 and x.poly_at(t[2][1], t[4]) == Poly.atom(pa) for t in fv):
+                        tested = True
+            if not tested:
+                problems.append(('start-may-be-npos', '`%s` is assigned `%s`, which is npos when nothing but delimiters follows (the input ends '
+                                 'with the delimiter); it is used here as the start of the last token without a test against npos: '
+                                 '`size() - %s` wraps around and substr(npos) throws std::out_of_range'
+                                 % (pa[2], tu.show(finds[0][3]), pa[2])))
     # (2) definitions of the token start
     if pa is not None:
         pv = x.vars[pa[1]]
@@ -3344,10 +3382,28 @@ def begins_with_compare(tu, x, f, ps, rets):
     loc = tu.loc(r)
     s_, obj, args = tu.call_parts(c)
     real = [y for y in args if y.get('kind') != 'CXXDefaultArgExpr']
-    if len(real) != 3:
+    if len(real) not in (3, 5):
         return ('und', 'cannot read `%s`' % tu.show(c), loc)
     pos = x.pos_of(r)
     okey, p0, n0, skey = x.objkey(obj), x.poly_at(real[0], pos), x.poly_at(real[1], pos), x.objkey(real[2])
+    MINSZ = Poly.atom(('min',) + tuple(sorted([SI, SP], key=repr)))
+    if len(real) == 5 and okey == INP and skey == PRE:
+        # input.compare(p1, n1, prefix, p2, n2): input[p1, p1+n1) against prefix[p2, p2+n2); a prefix test needs the WHOLE prefix
+        p2, n2 = x.poly_at(real[3], pos), x.poly_at(real[4], pos)
+        if p2.as_int() != 0:
+            return ('und', 'offset `%s` into the prefix argument' % p2.show(), loc) if p2.as_int() is None else \
+                ('prefix-offset', '`%s` starts at offset %d of the prefix argument' % (tu.show(c), p2.as_int()), loc)
+        if n2 == MINSZ or n0 == MINSZ:
+            return ('clamped-to-shorter', '`%s` compares only min(input.size(), prefix.size()) characters: it tests whether the two strings '
+                    'agree on their common length, which is also true when the input is a proper prefix of the pattern '
+                    '(beginsWith("--he", "--help"), beginsWith("", "x"))' % tu.show(c), loc)
+        if n2 != SP and n2 != P_NPOS:
+            if (n2 - SP).as_int() is not None:
+                return ('prefix-length', '`%s` uses `%s` characters of the prefix argument, expected all `%s`' % (tu.show(c), n2.show(), SP.show()), loc)
+            return ('und', 'length `%s` taken from the prefix argument' % n2.show(), loc)
+    if n0 == MINSZ and okey == INP and skey == PRE:
+        # three-argument form: the prefix is compared whole, min() only clamps the part of the input -- that is what compare does anyway
+        n0 = SP
     if e.get('opcode') == '!=':
         return ('negated', 'beginsWith returns `%s`: the result is inverted' % tu.show(e), loc)
     if okey == PRE and skey == INP:
@@ -5857,9 +5913,42 @@ def check_url_cuts(ctx, tu):
                                                   'part of the delimiter is kept' if tail_c < dl else 'the first character(s) of the remainder are lost')))
                     else:
                         seen.append('tail [%s + %d, end)' % (v['name'], dl))
+            # a pair whose first component is the uncut string itself (the "no delimiter" form) must be built only when the
+            # delimiter was NOT found: otherwise a component that does contain it is stored whole as a name
+            for b2, i2, nd in x.g.stmts():
+                first = None
+                k2 = nd.get('kind')
+                if k2 == 'CallExpr' and tu.sd(nd).get('q') == 'std::make_pair' and len(tu.kids(nd)) == 3:
+                    first = tu.kids(nd)[1]
+                elif k2 in ('CXXConstructExpr', 'CXXTemporaryObjectExpr') and 'std::pair<' in (tu.sd(nd).get('q') or tu.sd(nd).get('ct') or ''):
+                    ks_ = [y for y in tu.kids(nd) if y.get('kind') != 'CXXDefaultArgExpr']
+                    if len(ks_) == 2:
+                        first = ks_[0]
+                elif k2 == 'CXXMemberCallExpr' and last_name(tu.sd(nd).get('q')) == 'emplace_back' and len(tu.call_parts(nd)[2]) == 2:
+                    first = tu.call_parts(nd)[2][0]
+                if first is None or x.objkey(x.peel(first)) != src:
+                    continue
+                pos2 = (b2.id, i2)
+                notfound = False
+                for cn, truth, blk in x.guards(pos2):
+                    nf = x.cond_at(cn, truth, x.pos_of(cn))
+                    for lf in (rels_of(nf) or []):
+                        if lf is not None and lf[0] == 'rel' and lf[1] == Rel.make(V, '==', NOTFOUND):
+                            notfound = True
+                if notfound:
+                    seen.append('whole component as name only when %s is absent' % lit)
+                else:
+                    bad.append(('whole-component-with-delimiter', '`%s` stores the uncut component as the name, and this is not limited to '
+                                'components without %s: a component that does contain it but fails the other condition of the test '
+                                '(e.g. `name=` with an empty value) is stored under a name that includes the %s, so hasParam / '
+                                'getValue of the real name fail' % (tu.show(nd), lit, lit)))
             loc = tu.loc(e)
             if bad:
+                seenk = set()
                 for k, m in bad:
+                    if (k, m) in seenk:
+                        continue
+                    seenk.add((k, m))
                     ctx.violation(R, inst, m, loc, key='%s-%s' % (key, k))
             elif und:
                 for u in und:
